@@ -139,12 +139,14 @@ Example C14_ex_expired :
   let c := mkCfg false false true true false false false false in
   let script := [EChunk WOut; ETimer; EChunk WOut; EEof WOut; EEof WErr] in
   first_of script = ExpiredWhileRunning /\ has_exc script = false /\ has_kbd script = false /\
-  observe (run_sm c script) = mkSmObs (Some OTimedOut) 1 0 0 1 true [] false true true 2 0.
+  observe (run_sm c script) = mkSmObs (Some OTimedOut) 1 0 0 1 true [] false true true 2 0
+                                       [(WOut, false); (WErr, false)].
 Proof. vm_compute. auto. Qed.
 
 Example C14_ex_timely :
   let c := mkCfg false false true false false false false false in
   let script := [EChunk WOut; EExit 3%Z; EEof WOut; EEof WErr] in
   no_timer script = true /\ exit_code script = Some 3%Z /\
-  observe (run_sm c script) = mkSmObs (Some OUnexpectedExit) 0 0 0 1 true [] false false true 1 0.
+  observe (run_sm c script) = mkSmObs (Some OUnexpectedExit) 0 0 0 1 true [] false false true 1 0
+                                       [(WOut, false); (WErr, false)].
 Proof. vm_compute. auto. Qed.
